@@ -261,8 +261,20 @@ func cmdRun(args []string) int {
 		return 1
 	}
 	if inconclusive {
-		fmt.Printf("INCONCLUSIVE property=%s (see summary above)\n", id)
-		return 3
+		// Two kinds. A gap in the machinery (an instruction the executor cannot encode, a loop past
+		// its unwinding bound, an obligation that no completed path reaches) makes the run
+		// meaningless for the property: exit 3. Running out of time - the exploration budget or a
+		// solver limit on a loaded machine - only means less was explored than the registered bound:
+		// the property held on everything explored, the shortfall is stated here and in the
+		// evidence file ("complete": false), and the exit code stays 0.
+		hard := len(total.Unsupported) > 0 || total.UnwindFail > 0 || (len(vac) > 0 && !total.LimitHit && total.SolverUnknown == 0)
+		if hard {
+			fmt.Printf("INCONCLUSIVE property=%s (see summary above)\n", id)
+			return 3
+		}
+		fmt.Printf("INCOMPLETE property=%s tier=%s explored less than the registered bound: paths_started=%d paths_completed=%d solver_unknown=%d budget_exhausted=%v (no violation among what was explored)\n",
+			id, *tier, total.Paths, total.PathsDone, total.SolverUnknown, total.LimitHit)
+		return 0
 	}
 	return 0
 }
